@@ -78,6 +78,8 @@ fn workloads(prop: &str, thorough: bool) -> Vec<Work> {
             w.push(chains(Plain, FailHist, 7, 10000 * k));
             w.push(chains(Prod, Rename, 6, 10000 * k));
             w.push(chains(Stamped, ValidatedEph, 4, 6000 * k));
+            w.push(chains(Plain, EphFail, 4, 12000 * k));
+            w.push(chains(Stamped, EphFail, 4, 6000 * k));
             exh(&mut w, exhaustive::Phase::Edits);
         }
         "C04" => {
@@ -94,7 +96,9 @@ fn workloads(prop: &str, thorough: bool) -> Vec<Work> {
             w.push(chains(Stamped, Random, 12, 6000 * k));
             w.push(chains(Prod, Random, 8, 8000 * k));
             w.push(chains(Plain, EphChain, 4, 8000 * k));
-            w.push(chains(Plain, LateFail, 4, 6000 * k));
+            w.push(chains(Plain, LateFail, 4, 16000 * k));
+            w.push(chains(Stamped, LateFail, 4, 6000 * k));
+            w.push(chains(Plain, EphFail, 4, 6000 * k));
             exh(&mut w, exhaustive::Phase::Faults);
             exh(&mut w, exhaustive::Phase::Edits);
         }
@@ -114,7 +118,9 @@ fn workloads(prop: &str, thorough: bool) -> Vec<Work> {
         }
         "C07" => {
             w.push(chains(Plain, Random, 8, 12000 * k));
-            w.push(chains(Plain, LateFail, 4, 12000 * k));
+            w.push(chains(Plain, LateFail, 4, 24000 * k));
+            w.push(chains(Stamped, LateFail, 4, 8000 * k));
+            w.push(chains(Plain, EphFail, 4, 8000 * k));
             w.push(chains(Plain, FailHist, 7, 8000 * k));
             w.push(chains(Stamped, Random, 8, 6000 * k));
             w.push(chains(Prod, Random, 8, 6000 * k));
@@ -127,6 +133,9 @@ fn workloads(prop: &str, thorough: bool) -> Vec<Work> {
             w.push(chains(Plain, Random, 8, 8000 * k));
             w.push(chains(Plain, AbortOffered, 7, 6000 * k));
             w.push(chains(Stamped, ValidatedEph, 4, 6000 * k));
+            w.push(chains(Prod, Rename, 6, 12000 * k));
+            w.push(chains(Plain, EphFail, 4, 6000 * k));
+            w.push(chains(Plain, LateFail, 4, 6000 * k));
             exh(&mut w, exhaustive::Phase::Faults);
         }
         "C09" => {
@@ -136,6 +145,8 @@ fn workloads(prop: &str, thorough: bool) -> Vec<Work> {
             w.push(chains(Stamped, Random, 8, 6000 * k));
             w.push(chains(Prod, Rename, 6, 8000 * k));
             w.push(chains(Plain, FailHist, 7, 6000 * k));
+            w.push(chains(Plain, LateFail, 4, 16000 * k));
+            w.push(chains(Plain, EphFail, 4, 8000 * k));
             exh(&mut w, exhaustive::Phase::Faults);
         }
         "C10" => {
@@ -190,6 +201,8 @@ fn workloads(prop: &str, thorough: bool) -> Vec<Work> {
             w.push(Work::Meta { family: EphChain, maxn: 4, n: 6000 * k });
             w.push(Work::Meta { family: FailHist, maxn: 7, n: 6000 * k });
             w.push(Work::Meta { family: AbortOffered, maxn: 7, n: 4000 * k });
+            w.push(Work::Meta { family: EphFail, maxn: 4, n: 8000 * k });
+            w.push(Work::Meta { family: LateFail, maxn: 4, n: 4000 * k });
         }
         "C16" => {
             for (conv, fam, n) in [(Plain, ValidatedEph, 14000), (Stamped, ValidatedEph, 12000), (Prod, ValidatedEph, 8000), (Plain, EphChain, 8000), (Stamped, Random, 8000)] {
@@ -202,7 +215,8 @@ fn workloads(prop: &str, thorough: bool) -> Vec<Work> {
         }
         "C17" => {
             w.push(chains(Plain, Random, 8, 12000 * k));
-            w.push(chains(Plain, LateFail, 4, 8000 * k));
+            w.push(chains(Plain, LateFail, 4, 20000 * k));
+            w.push(chains(Plain, EphFail, 4, 6000 * k));
             w.push(chains(Plain, AbortOffered, 7, 6000 * k));
             w.push(chains(Stamped, Random, 12, 4000 * k));
             w.push(chains(Prod, Random, 8, 6000 * k));
